@@ -11,6 +11,7 @@ import OrixProofs.Properties.C01
 import OrixProofs.Lemmas.SamplingBasic
 import OrixProofs.Lemmas.SamplingUV
 import OrixProofs.Lemmas.SamplingCube
+import OrixProofs.Lemmas.SamplingEA
 import OrixProofs.Lemmas.SO3Cover
 /-
 C19 — sampling grids lie in and cover their target region.
@@ -37,7 +38,12 @@ Sections 2–4 are about the MODEL of the deterministic S2 meshes (`OrixModel/Sa
     (proved for `r = 120°`; open finding C19-s2-tan-resolution-above-90).  The two spherified grids have NO covering
     theorem (their face lattice is equiangular, spacing up to `2·r` near the face corners): measured only.
   * spherified-edge grid: defined for every r > 0, equiangular edge points with angular step ≤ r (`_partial`).
-  * equal-area and hexagonal meshes: unit vectors only.  Icosahedral mesh: no model, no theorem (measured).
+  * equal-area mesh: unit vectors; defined for every r > 0 (any hemisphere, either endpoint flag); and THE COVERING
+    THEOREM for `hemisphere="both"`: every direction `v` has a mesh vector `g` with `v·g ≥ cos(π/(4D)) − 1/(2D)`,
+    `D = ⌈90/r⌉`, hence `≥ cos(rπ/360) − r/180` for `0 < r ≤ 360°` — without pole-duplicate removal for every `r > 0`,
+    with it for `r ≥ 0.002°`.  The mesh samples cos θ uniformly, so the angular gaps at the poles scale like `√r`
+    (`arccos(1 − 1/(2D))`), which is why the bound is not of the form `cos(c·r)`.
+  * hexagonal mesh: unit vectors only.  Icosahedral mesh: no model, no theorem (measured).
 
 Section 5 is about the MODEL of the deterministic SO(3) grids of the methods "quaternion" and "haar_euler"
 (`OrixModel/SO3Sampling.lean`, tied to `orix/sampling/SO3_sampling.py` by the sites `so3_num_steps`, `so3_grid`): defined for
@@ -299,6 +305,125 @@ theorem equal_area_mesh_unit (r : ℝ) (h : Hemisphere) (rm : Bool) (vs : List (
   · cases hok
     obtain ⟨⟨a, p⟩, _, rfl⟩ := List.mem_map.mp hv
     rw [nodeVector_eq]; exact normSq_sph p a
+
+/-- `_sample_S2_equal_area_coordinates` is DEFINED for every resolution `r > 0`, every hemisphere and either endpoint
+flag (the `azimuth_range` / `polar_range` arguments are not modelled) -/
+theorem equal_area_coordinates_defined (r : ℝ) (hr : 0 < r) (h : Hemisphere) (ep : Bool) :
+    ∃ c, eaCoordinates r h ep = .ok c ∧ c.steps = ⌈90 / r⌉ := by
+  have hr0 : ¬ (Scalar.beq r (0 : ℝ) = true) := by simp [hr.ne']
+  have hc : 0 < ⌈90 / r⌉ := Int.ceil_pos.mpr (by positivity)
+  have hpi := Real.pi_pos
+  have h4 : (2 * Real.pi - 0) / (Real.pi / 2) * (⌈90 / r⌉ : ℝ) = ((4 * ⌈90 / r⌉ : ℤ) : ℝ) := by
+    push_cast; field_simp; ring
+  have hceil : ⌈(2 * Real.pi - 0) / (Real.pi / 2) * (⌈90 / r⌉ : ℝ)⌉ = 4 * ⌈90 / r⌉ := by
+    rw [h4, Int.ceil_intCast]
+  unfold eaCoordinates
+  simp only [ceilInt_real, lit_real, ofInt_real, pi_real, Nat.cast_zero, Nat.cast_ofNat]
+  rw [if_neg hr0]
+  simp only [hceil]
+  have hpn : ¬ ((h.polarCos.1 - h.polarCos.2) * ⌈90 / r⌉ + 1 < 0) := by
+    cases h <;> simp only [Hemisphere.polarCos] <;> omega
+  cases ep
+  · rw [if_neg (by simp only [Bool.false_eq_true, if_false]; omega), if_neg hpn]
+    exact ⟨_, rfl, rfl⟩
+  · rw [if_neg (by simp only [if_true]; omega), if_neg hpn]
+    exact ⟨_, rfl, rfl⟩
+
+theorem equal_area_mesh_defined (r : ℝ) (hr : 0 < r) (h : Hemisphere) (rm : Bool) : ∃ vs, eaMesh r h rm = .ok vs := by
+  obtain ⟨c, hc, -⟩ := equal_area_coordinates_defined r hr h false
+  simp only [eaMesh, eaMeshNodes, hc]
+  exact ⟨_, rfl⟩
+
+/-- membership in the full-sphere equal-area mesh -/
+theorem equal_area_mesh_mem (r : ℝ) (hr : 0 < r) (rm : Bool) (vs : List (Vec3 ℝ)) (hok : eaMesh r .both rm = .ok vs)
+    (i j : ℕ) (hi : i ≤ 2 * nEA r) (hj : j < 4 * nEA r)
+    (hkeep : rm = true → poleDuplicate (eaAzLine r j, eaPolLine r i) = false) :
+    sph (eaPolLine r i) (eaAzLine r j) ∈ vs := by
+  obtain ⟨c, hc, -, haz, hpol⟩ := eaCoordinates_both r hr
+  simp only [eaMesh, eaMeshNodes, hc] at hok
+  cases hok
+  have hnode : (eaAzLine r j, eaPolLine r i) ∈ meshAP c.azimuth c.polar := by
+    rw [mem_meshAP, haz, hpol]
+    exact ⟨List.mem_map.mpr ⟨j, List.mem_range.mpr hj, rfl⟩, List.mem_map.mpr ⟨i, List.mem_range.mpr (by omega), rfl⟩⟩
+  rw [← nodeVector_eq]
+  apply List.mem_map.mpr
+  refine ⟨(eaAzLine r j, eaPolLine r i), ?_, rfl⟩
+  cases rm
+  · exact hnode
+  · simp only [if_true, removePoleDuplicates]
+    exact List.mem_filter.mpr ⟨hnode, by simp [hkeep rfl]⟩
+
+/-- the number of nodes of the grid with its pole duplicates: `4D·(2D + 1)`, `D = ⌈90/r⌉` -/
+theorem equal_area_grid_count (r : ℝ) (hr : 0 < r) (vs : List (Vec3 ℝ)) (hok : eaMesh r .both false = .ok vs) :
+    vs.length = 4 * nEA r * (2 * nEA r + 1) := by
+  obtain ⟨c, hc, -, haz, hpol⟩ := eaCoordinates_both r hr
+  simp only [eaMesh, eaMeshNodes, hc, Bool.false_eq_true, if_false] at hok
+  cases hok
+  simp only [List.length_map, meshAP, List.length_flatMap, haz, hpol, List.length_range, List.map_map,
+    Function.comp_def, List.map_const', List.sum_replicate, smul_eq_mul]
+  ring
+
+/-- COVERING THEOREM, grid with its pole duplicates (`remove_pole_duplicates=False`), `hemisphere="both"`, EVERY
+resolution `r > 0`: every direction of the sphere has a mesh vector with scalar product at least
+`cos(π/(4D)) − 1/(2D)`, `D = ⌈90/r⌉` -/
+theorem equal_area_grid_covers_sphere (r : ℝ) (hr : 0 < r) (vs : List (Vec3 ℝ))
+    (hok : eaMesh r .both false = .ok vs) (v : Vec3 ℝ) (hv : Vec3.normSq v = 1) :
+    ∃ g ∈ vs, Real.cos (Real.pi / (4 * (nEA r : ℝ))) - 1 / (2 * (nEA r : ℝ)) ≤ Vec3.dot v g := by
+  obtain ⟨θ, φ, h0, h1, h2, h3, rfl⟩ := exists_sph v hv
+  obtain ⟨i, j, hi, hj, hd⟩ := ea_node_near hr h0 h1 h2 h3.le
+  exact ⟨_, equal_area_mesh_mem r hr false vs hok i j hi hj (fun h => by cases h), hd⟩
+
+/-- POLE DUPLICATES LOSE NOTHING (`r ≥ 0.002°`): with and without `_remove_pole_duplicates` the equal-area mesh is the
+same SET of vectors -/
+theorem equal_area_pole_duplicates_lose_nothing (r : ℝ) (hr : 1 / 500 ≤ r) (vs vs' : List (Vec3 ℝ))
+    (hok : eaMesh r .both true = .ok vs) (hok' : eaMesh r .both false = .ok vs') :
+    ∀ v, v ∈ vs ↔ v ∈ vs' := by
+  have hr0 : 0 < r := by linarith
+  obtain ⟨c, hc, -, haz, hpol⟩ := eaCoordinates_both r hr0
+  intro v
+  constructor
+  · intro hv
+    simp only [eaMesh, eaMeshNodes, hc, if_true, Bool.false_eq_true, if_false] at hok hok'
+    cases hok; cases hok'
+    obtain ⟨n, hn, rfl⟩ := List.mem_map.mp hv
+    exact List.mem_map.mpr ⟨n, (List.mem_filter.mp hn).1, rfl⟩
+  · intro hv
+    have hok2 := hok'
+    simp only [eaMesh, eaMeshNodes, hc, Bool.false_eq_true, if_false] at hok2
+    cases hok2
+    obtain ⟨⟨a, p⟩, hn, rfl⟩ := List.mem_map.mp hv
+    rw [mem_meshAP, haz, hpol] at hn
+    obtain ⟨ha, hp⟩ := hn
+    obtain ⟨j, hj, rfl⟩ := List.mem_map.mp ha
+    obtain ⟨i, hi, rfl⟩ := List.mem_map.mp hp
+    have hj' := List.mem_range.mp hj
+    have hi' : i ≤ 2 * nEA r := by have := List.mem_range.mp hi; omega
+    obtain ⟨j', hj'', heq, hkeep⟩ := ea_kept_node hr hi' hj'
+    rw [nodeVector_eq, ← heq]
+    exact equal_area_mesh_mem r hr0 true vs hok i j' hi' hj'' (fun _ => hkeep)
+
+/-- COVERING THEOREM for `sample_S2_equal_area_mesh(r)` as called by `sample_S2` (`hemisphere="both"`, pole duplicates
+removed or not), every resolution `0.002° ≤ r ≤ 360°`: every direction `v` of the sphere has a mesh vector `g` with
+`v·g ≥ cos(r·π/360) − r/180`.  (The angular covering radius is therefore at most `arccos(cos(rπ/360) − r/180)`, which
+behaves like `√(r/90)` rad for small `r`: cos θ is sampled uniformly, so the rings next to the poles are `√`-far.) -/
+theorem equal_area_mesh_covers_sphere (r : ℝ) (hr : 1 / 500 ≤ r) (hr' : r ≤ 360) (rm : Bool) (vs : List (Vec3 ℝ))
+    (hok : eaMesh r .both rm = .ok vs) (v : Vec3 ℝ) (hv : Vec3.normSq v = 1) :
+    ∃ g ∈ vs, Real.cos (r * Real.pi / 360) - r / 180 ≤ Vec3.dot v g := by
+  have hr0 : 0 < r := by linarith
+  have hb := ea_bound_resolution hr0 hr'
+  cases rm
+  · obtain ⟨g, hg, hd⟩ := equal_area_grid_covers_sphere r hr0 vs hok v hv
+    exact ⟨g, hg, le_trans hb hd⟩
+  · obtain ⟨vs', hok'⟩ := equal_area_mesh_defined r hr0 .both false
+    obtain ⟨g, hg, hd⟩ := equal_area_grid_covers_sphere r hr0 vs' hok' v hv
+    exact ⟨g, (equal_area_pole_duplicates_lose_nothing r hr vs vs' hok hok' g).mpr hg, le_trans hb hd⟩
+
+/-- the same as an ANGLE between unit vectors: `arccos(v·g) ≤ arccos(cos(r·π/360) − r/180)` -/
+theorem equal_area_mesh_covering_angle (r : ℝ) (hr : 1 / 500 ≤ r) (hr' : r ≤ 360) (rm : Bool) (vs : List (Vec3 ℝ))
+    (hok : eaMesh r .both rm = .ok vs) (v : Vec3 ℝ) (hv : Vec3.normSq v = 1) :
+    ∃ g ∈ vs, Real.arccos (Vec3.dot v g) ≤ Real.arccos (Real.cos (r * Real.pi / 360) - r / 180) := by
+  obtain ⟨g, hg, hd⟩ := equal_area_mesh_covers_sphere r hr hr' rm vs hok v hv
+  exact ⟨g, hg, Real.arccos_le_arccos hd⟩
 
 /-! ## 4. cube meshes -/
 
@@ -689,6 +814,20 @@ example : ∃ vs, uvMesh (7.5 : ℝ) .both 0 true = .ok vs ∧
   obtain ⟨vs, h⟩ := uv_mesh_defined 7.5 (by norm_num) .both 0 (le_refl _) (by norm_num) true
   exact ⟨vs, h, fun v hv => uv_mesh_covers_sphere 7.5 (by norm_num) true vs h v hv⟩
 /-- and of the cube theorem at `r = 45°`: `tan 45° = 1`, one step, 26 vectors -/
+example : nEA 10 = 9 ∧ nEA 7.5 = 12 := by
+  have e1 : (90 : ℝ) / 10 = ((9 : ℤ) : ℝ) := by norm_num
+  have e2 : (90 : ℝ) / 7.5 = ((12 : ℤ) : ℝ) := by norm_num
+  constructor
+  · unfold nEA; rw [e1, Int.ceil_intCast]; rfl
+  · unfold nEA; rw [e2, Int.ceil_intCast]; rfl
+
+example : ∃ vs, eaMesh (10 : ℝ) .both false = .ok vs ∧ vs.length = 36 * 19 := by
+  obtain ⟨vs, h⟩ := equal_area_mesh_defined 10 (by norm_num) .both false
+  refine ⟨vs, h, ?_⟩
+  have e1 : (90 : ℝ) / 10 = ((9 : ℤ) : ℝ) := by norm_num
+  have h9 : nEA 10 = 9 := by unfold nEA; rw [e1, Int.ceil_intCast]; rfl
+  rw [equal_area_grid_count 10 (by norm_num) vs h, h9]
+
 example : ∃ m, cubeMesh (45 : ℝ) .normalized = .ok m ∧ m.steps = 1 ∧ m.vectors.length = 26 := by
   obtain ⟨m, hm, hs, -, -⟩ := normalized_cube_defined 45 (by norm_num) (by norm_num)
   have ht : Real.tan ((45 : ℝ) * (Real.pi / 180)) = 1 := by
